@@ -42,7 +42,10 @@ MANIFEST = dict(
     design_ref="DESIGN.md section 4 C20",
 )
 
-REQUIRED = []
+REQUIRED = ["Xmp.Sample." + n for n in (
+    "C20_stage_order", "C20_vidc_table", "C20_main", "C20_loaded", "C20_pipeline", "C20_pipeline_load", "C20_stage_shl1", "C20_stage_bswap",
+    "C20_stage_delta8", "C20_stage_delta16", "C20_stage_unsign", "C20_stage_vidc", "C20_stage_interleave", "C20_stage_adpcm",
+    "C20_truncation", "C20_truncation_prefix", "C20_loop", "C20_guards", "alloc_le", "writes_in_bounds")]
 
 FIELDS = ["ret", "len", "lps", "lpe", "flg", "tell", "data"]
 FBITS = {"DIFF": 1, "UNS": 2, "8BDIFF": 4, "7BIT": 8, "NOLOAD": 0x10, "BIGEND": 0x40, "VIDC": 0x80, "INTERLEAVED": 0x100,
@@ -81,7 +84,12 @@ def which_field(a, b):
             if len(x) != len(y):
                 return "alloc-size"
             i = next(k for k in range(0, len(x), 2) if x[k:k + 2] != y[k:k + 2]) // 2
-            return "guard-start" if i < 4 else "pcm-or-end-guard"
+            try:
+                flg = int(a[4])
+                bytelen = int(a[1]) * (2 if flg & 1 else 1) * (2 if flg & 0x80 else 1)
+            except ValueError:
+                bytelen = 0
+            return "guard-start" if i < 4 else ("pcm" if i < 4 + bytelen else "guard-end")
     return "same"
 
 
